@@ -233,6 +233,23 @@ def case_linear_strided_int8_operands():
     return None
 
 
+def case_mm_expanded_operands():
+    """aten.mm on the integer route (more than 16 rows, sizes multiples of 8) with an expanded (stride 0) operand"""
+    import optimum.quanto as q
+    torch.manual_seed(0)
+    s = torch.tensor(0.02)
+    b = q.quantize_activation(torch.randn(16, 8), q.qint8, s)
+    a = q.quantize_activation(torch.randn(1, 16), q.qint8, s).expand(24, 16)
+    a2 = q.quantize_activation(torch.randn(24, 16), q.qint8, s)
+    b2 = q.quantize_activation(torch.randn(16, 1), q.qint8, s).expand(16, 8)
+    for name, (x, y) in {"left": (a, b), "right": (a2, b2)}.items():
+        r = torch.mm(x, y)
+        ref = torch.mm(_deq(x), _deq(y))
+        if not torch.allclose(_deq(r), ref, atol=1e-4):
+            return f"mm with an expanded {name} operand differs by {float((_deq(r) - ref).abs().max()):.3g}"
+    return None
+
+
 def case_copy_into_module_output():
     """the quantized output of a module holds the module's `output_scale` buffer itself: writing it in place rescales the module"""
     import optimum.quanto as q
@@ -310,6 +327,7 @@ CASES = {
     "linear-noncontiguous-activations": case_linear_noncontiguous_activations,
     "linear-strided-int8-operands": case_linear_strided_int8_operands,
     "copy_-into-module-output": case_copy_into_module_output,
+    "mm-expanded-operands": case_mm_expanded_operands,
     "mm-contracted-axis": case_mm_contracted_axis,
     "mm-contracted-axis-right": case_mm_contracted_axis_right,
     "linear-weight-last-axis": case_linear_weight_last_axis,
